@@ -147,7 +147,7 @@ pub fn run(ctx: &Ctx) -> ! {
             "fixture TICK = 1 ms; task code only sleeps whole milliseconds; TCP packets are never dropped by fixture-mode rules (loss is C06's subject), TCP echo success is counted, not required".into(),
             "loopback packets are observed through the read-only tap turmoil_net::verif::set_loopback_tap".into(),
         ],
-        min_distinct: ctx.pick(200, 3000),
+        min_distinct: ctx.pick(5000, 100_000),
         required_counters: vec![
             "rule_invocations",
             "evaluations_checked",
@@ -189,21 +189,21 @@ pub fn run(ctx: &Ctx) -> ! {
     }
     let mut report = Report::default();
     report.max_samples = 1;
-    let budget = ctx.pick(45.0, 420.0);
+    let budget = ctx.pick(45.0, 360.0);
     {
-        let n = ctx.pick(1200u64, 60_000);
+        let n = ctx.pick(20_000u64, 5_000_000);
         let c2 = ctx.clone();
         let opts = RunOpts { budget_s: budget * 0.4, ..RunOpts::default() };
         report.merge(vcore::run_parallel(ctx, n, opts, move |i| run_wire(&wire::WireScn::generate(c2.scenario_seed("wire", i)), true)));
     }
     {
-        let n = ctx.pick(1200u64, 60_000);
+        let n = ctx.pick(20_000u64, 5_000_000);
         let c2 = ctx.clone();
         let opts = RunOpts { budget_s: budget * 0.5, ..RunOpts::default() };
         report.merge(vcore::run_parallel(ctx, n, opts, move |i| run_fix(&fixt::FixScn::generate(c2.scenario_seed("cs", i), false), true)));
     }
     {
-        let n = ctx.pick(200u64, 6_000);
+        let n = ctx.pick(3000u64, 500_000);
         let c2 = ctx.clone();
         let opts = RunOpts { budget_s: budget * 0.1, ..RunOpts::default() };
         report.merge(vcore::run_parallel(ctx, n, opts, move |i| run_fix(&fixt::FixScn::generate(c2.scenario_seed("lo", i), true), true)));
